@@ -723,7 +723,7 @@ class Molecule(nx.Graph):
             offset = 0
             residue_offset = 0
             offset_charge_group = 0
-            self.max_node = 0
+            self.max_node = None
 
         correspondence = {}
         for idx, node in enumerate(molecule.nodes(), start=offset + 1):
